@@ -53,11 +53,38 @@ def make_scenarios(rng, tier):
                        {"op": "snapshot", "probe": names, "_active": [], "_done": [a, b]}]
         scs.append(sc)
         sid += 1
+    # a request may inject its own object under a name the pool was BUILT with (the api "Tn"): once it has returned nothing of
+    # it may be left in the instance, whatever becomes of the api — later requests that do not inject that name follow
+    for (mn, mx) in [(1, 2), (2, 3)]:
+        for meth in ("Execute", "ExecuteRulesWithMultiInputWithSpecifiedEM", "ExecuteSelectedRules", "ExecuteMixModel"):
+            sc = {"id": sid, "min": mn, "max": mx, "model": 1, "rules": rules_v(1), "steps": []}
+            names = ["pa", "pb", "pc"]
+            rid = sid * 1000
+            shadow = []
+            for _ in range(mx):
+                rid += 1
+                shadow.append(rid)
+                sc["steps"].append(req_step(rid, meth, names, hold_at="*", extra=["K%d" % rid, "Tn"]))
+            sc["steps"].append({"op": "snapshot", "probe": names, "_active": list(shadow), "_done": []})
+            for q in shadow:
+                sc["steps"].append({"op": "release", "id": q})
+            sc["steps"].append({"op": "snapshot", "probe": names, "_active": [], "_done": list(shadow)})
+            later = []
+            for _ in range(mx):
+                rid += 1
+                later.append(rid)
+                sc["steps"].append(req_step(rid, "Execute", names, hold_at="*"))
+            sc["steps"].append({"op": "snapshot", "probe": names, "_active": list(later), "_done": list(shadow)})
+            for q in later:
+                sc["steps"].append({"op": "release", "id": q})
+            sc["steps"].append({"op": "snapshot", "probe": names, "_active": [], "_done": shadow + later})
+            scs.append(sc)
+            sid += 1
     return scs
 
 
 RULE = ("scenarios as C17 (overlap rounds and random walks over pool states) on pools (1,2),(2,3),(2,5) plus every one of the 24 wrapper methods paired on a (1,2) pool, once with sound rules and once with a failing and a panicking rule next to the held one: max requests held at a gate inside their first rule while snapshots read every instance's data context by reflection; "
-        "every request carries a unique id in its own injected object and under a unique key; rules echo the id into the returned values and into the request's object; "
+        "every request carries a unique id in its own injected object and under a unique key (in eight scenarios also under the name of an api the pool was built with); rules echo the id into the returned values and into the request's object; "
         "checked inside Coq: the instances holding request keys are exactly the executing requests, one each; nothing of a returned request is left in any instance; returned maps contain only the caller's id and are unchanged when read again at the end; "
         "distinct non-trivial = snapshots taken while at least two requests were simultaneously inside a rule")
 
